@@ -328,7 +328,7 @@ def sources_to_file(sources, path, normalized=True):
     bad = []
     for s in sources:
         try:
-            top = compile(s["src"], "<verif>", s.get("mode", "exec"), dont_inherit=True, optimize=s.get("optimize", 0))
+            top = cpy.compile_source(s)
         except Exception as ex:
             bad.append([s["id"], type(ex).__name__])
             continue
@@ -491,6 +491,27 @@ def direct_event(cd, id_):
             lines = lines and ln == x.line_number
     e["operands"], e["jumps"], e["lines"] = ops, jumps, lines
     return e
+
+
+def freeorder_to_file(cases, path):
+    """hand-built data whose `freevars` are listed in an order the compilers never produce (they sort them): every
+    Freevar operand must still resolve to its own name; cases = [{id, order: [names], cell: bool}]"""
+    from code_data import Args, Cellvar, CodeData, Constant, Freevar, Function, Instruction
+
+    evs = []
+    for c in cases:
+        ins = []
+        if c.get("cell"):
+            ins += [Instruction("LOAD_DEREF", Cellvar("zcell"), line_number=1), Instruction("POP_TOP", line_number=1)]
+        for n in sorted(c["order"]) + list(c["order"]):
+            ins += [Instruction("LOAD_DEREF", Freevar(n), line_number=1), Instruction("POP_TOP", line_number=1)]
+        ins += [Instruction("LOAD_CONST", Constant(None), line_number=2), Instruction("RETURN_VALUE", line_number=2)]
+        cd = CodeData(blocks=(tuple(ins),), filename="<free>", first_line_number=1, name="fo", stacksize=2,
+                      type=Function(Args()), freevars=tuple(c["order"]), _nested=True)
+        ev, _ = encode_event(cd, c["id"], "hand")
+        evs.append(ev)
+    _dump(evs, path)
+    return len(evs)
 
 
 def lineprogs_to_file(cases, path, first=10):
